@@ -30,6 +30,12 @@ def pointer_like(F, i):
         return True
     if node["k"] == "tuple" and node["ts"]:
         return all(pointer_like(F, x) for x in node["ts"])
+    if node["k"] == "adt" and node.get("local") and F.path_to_handle.get(node["path"]) is None:
+        # a private newtype around a pointer (`struct TaggedPtr(NonNull<()>)`) is that pointer
+        a = F.adts.get(node["path"])
+        if a and a["kind"] == "Struct" and not a.get("reachable", True):
+            fs = [f for f in a["variants"][0]["fields"] if not F.ts(f["ty"]).startswith("core::marker::PhantomData")]
+            return len(fs) == 1 and pointer_like(F, fs[0]["ty"])
     return False
 
 
